@@ -10,9 +10,8 @@ LEVEL_TEXT = ('Every obligation generated from the current source of Heap.Swap/F
               'and the dispatch point proves from it that the chosen member is a minimum of the (load,index) order, is open unless every member is marked down, '
               'and has the fewest outstanding requests among up-marked members.')
 LEVEL_NOTE = ('Trusted: the pyvc encoding of python (DESIGN 2.4), z3/cvc5, assumed contracts of externs (random.randint, channel Close/AsyncProcessRequest, channel factory), '
-              'the assumed contract of _OpenNode (listed in the evidence; _FindNodeByEndpoint is proved). SCOPE: HeapBalancerSink with its own no-op hooks _OnGet/_OnPut/_OnNodeDown. '
-              'The ApertureBalancerSink overrides of these hooks add and remove heap members during __Get/__Put and do NOT satisfy the hook contracts used here (heap positions unchanged, size not decreasing): '
-              'for the aperture balancer C03 is not established by this check (see C06 under not_applicable). '
+              'the assumed contract of _OpenNode (listed in the evidence; _FindNodeByEndpoint is proved). SCOPE: the hooks _OnGet/_OnPut/_OnNodeDown are taken by a behavioural contract weak enough for both balancers (heap invariant kept; outstanding counts, loads, endpoints, channels and the down list of existing nodes untouched; '
+              'no member that holds requests is closed; members may be added or retired). HeapBalancerSink\'s own hooks are verified against it; the ApertureBalancerSink overrides are NOT yet (C06), so for the aperture balancer the result is conditional on them. '
               'Not proved: termination of __Get; that every down-marked member is on the down list (completeness of the resurrection scan); fewer than 2^31-3 outstanding requests per member is assumed.')
 ASSUMPTIONS = [
   'loads are python ints (exact arithmetic)',
